@@ -104,6 +104,8 @@ class ProgGen:
     def gen_args(self, generics, maxn=4, attrs_p=0.15):
         rng = self.rng
         n = rng.choice([0, 1, 1, 2, 2, 3, maxn])
+        if rng.random() < 0.06:
+            n = rng.randint(10, 13)       # two-digit positions (field10 sorts before field2 as text)
         names = rng.sample(ARG_NAMES, n)
         args = []
         for nm in names:
@@ -293,8 +295,15 @@ def gen_l2_program(rng, name_classes=None, n_ifaces=None, generic=None, error=No
 
     def mk_method(kind, assoc=None):
         nargs = rng.choice([0, 1, 1, 2, 2, 3, 4])
+        wide = rng.random() < 0.08
+        if wide:
+            nargs = rng.randint(10, 13)   # two-digit positions; same-typed so that a permutation still compiles
         names = rng.sample(ARG_NAMES, nargs)
-        args = [Arg(nm, gen_l2_type(rng, gens if assoc is None else (), assoc or ())) for nm in names]
+        if wide:
+            wt = rng.choice([P("u32"), P("String"), P("u64")])
+            args = [Arg(nm, wt) for nm in names]
+        else:
+            args = [Arg(nm, gen_l2_type(rng, gens if assoc is None else (), assoc or ())) for nm in names]
         for a in args:
             if rng.random() < 0.15 and plain(a.ty):
                 a.attrs.append(foreign("serde", "default"))
